@@ -25,12 +25,16 @@ CONSTANTS RootsFile,    \* ndjson file with the root positions
           MaxStack,     \* bound on Len(stack) (do/undo nesting)
           Acts,         \* subset of {"Move","Undo","Null","UndoNull"} enabled in this cfg
           Detail,       \* subset of {"pseudo","att","san","mirror"}: optional observation fields
-          Thin          \* 1 = every legal move is explored; k > 1 = a pseudo-random k-th of them
+          Thin,         \* 1 = every legal move is explored; k > 1 = a pseudo-random k-th of them
                         \* (thins the do/undo behaviours so that undos are not drowned by moves)
+          Walks,        \* 0 = off; n > 0 = generator mode: n pseudo-random games (one per initial state), the
+                        \* move is picked INSIDE the action by a linear congruential generator so that TLC
+                        \* generates exactly the states of the games (no fringe of unplayed successors)
+          WalkSeed
 
-VARIABLES pos, hist, stack, path, kinds, root, legal
+VARIABLES pos, hist, stack, path, kinds, root, legal, rng
 
-vars == <<pos, hist, stack, path, kinds, root, legal>>
+vars == <<pos, hist, stack, path, kinds, root, legal, rng>>
 
 RootRecs == ndJsonDeserialize(RootsFile)
 
@@ -43,14 +47,32 @@ RootPos(i) ==
      hmc   |-> r.hmc,
      fmn   |-> r.fmn]
 
-Init == \E i \in 1..Len(RootRecs) :
-            /\ root = i
-            /\ pos = RootPos(i)
-            /\ hist = <<>>
-            /\ stack = <<>>
-            /\ path = <<>>
-            /\ kinds = <<>>
-            /\ legal = Legal(RootPos(i))
+Lcg(x) == (x * 75 + 74) % 65537
+RECURSIVE LcgN(_, _)
+LcgN(x, n) == IF n = 0 THEN x ELSE LcgN(Lcg(x), n - 1)
+
+\* generator mode: the k-th legal move in the order of the move codes; the first plies pick among
+\* few moves only, so that the games share prefixes, transpose and repeat
+PickMove(L, r, ply) ==
+    LET n == Cardinality(L)
+        w == IF ply < 6 /\ n > 3 THEN 3 ELSE n
+        k == r % w
+    IN CHOOSE x \in L : Cardinality({y \in L : y < x}) = k
+
+Init == \/ /\ Walks = 0
+           /\ rng = 0
+           /\ \E i \in 1..Len(RootRecs) :
+                /\ root = i
+                /\ pos = RootPos(i)
+                /\ legal = Legal(RootPos(i))
+           /\ hist = <<>> /\ stack = <<>> /\ path = <<>> /\ kinds = <<>>
+        \/ /\ Walks > 0
+           /\ \E w \in 1..Walks :
+                /\ rng = LcgN((w * 7919 + WalkSeed * 10473 + 17) % 65537, 3)
+                /\ root = ((w - 1) % Len(RootRecs)) + 1
+                /\ pos = RootPos(((w - 1) % Len(RootRecs)) + 1)
+                /\ legal = Legal(RootPos(((w - 1) % Len(RootRecs)) + 1))
+           /\ hist = <<>> /\ stack = <<>> /\ path = <<>> /\ kinds = <<>>
 
 \* path entries: a move code (>= 0), -1 = undo, -2 = null move, -3 = undo null move
 UNDO == -1
@@ -67,6 +89,8 @@ Move(m) ==
     /\ Len(stack) < MaxStack
     /\ m \in legal
     /\ (m + 3 * Len(path) + root) % Thin = 0
+    /\ Walks > 0 => m = PickMove(legal, rng, Len(path))
+    /\ rng' = IF Walks > 0 THEN Lcg(rng) ELSE rng
     /\ pos' = Apply(pos, m)
     /\ hist' = Append(hist, Ident(pos))
     /\ stack' = Push("m")
@@ -87,7 +111,7 @@ NullMove ==
     /\ path' = Append(path, NULL)
     /\ kinds' = Append(kinds, <<0, 0>>)
     /\ legal' = Legal(pos')
-    /\ UNCHANGED root
+    /\ UNCHANGED <<root, rng>>
 
 Undo ==
     /\ "Undo" \in Acts
@@ -100,7 +124,7 @@ Undo ==
     /\ stack' = SubSeq(stack, 1, Len(stack) - 1)
     /\ path' = Append(path, UNDO)
     /\ kinds' = Append(kinds, <<0, 0>>)
-    /\ UNCHANGED root
+    /\ UNCHANGED <<root, rng>>
 
 UndoNull ==
     /\ "UndoNull" \in Acts
@@ -113,7 +137,7 @@ UndoNull ==
     /\ stack' = SubSeq(stack, 1, Len(stack) - 1)
     /\ path' = Append(path, UNDONULL)
     /\ kinds' = Append(kinds, <<0, 0>>)
-    /\ UNCHANGED root
+    /\ UNCHANGED <<root, rng>>
 
 Next == (\E m \in legal : Move(m)) \/ NullMove \/ Undo \/ UndoNull
 
